@@ -27,9 +27,15 @@ struct xoshiro128plus {
 
     [[nodiscard]] static constexpr auto min() noexcept -> result_type { return numeric_limits<uint32_t>::min(); }
 
-    [[nodiscard]] static constexpr auto max() noexcept -> result_type { return numeric_limits<uint32_t>::max() - 1; }
+    [[nodiscard]] static constexpr auto max() noexcept -> result_type { return numeric_limits<uint32_t>::max(); }
 
-    constexpr auto seed(result_type value = default_seed) noexcept -> void { _state[0] = value; }
+    constexpr auto seed(result_type value = default_seed) noexcept -> void
+    {
+        _state[0] = value;
+        _state[1] = 0;
+        _state[2] = 0;
+        _state[3] = 0;
+    }
 
     constexpr auto discard(unsigned long long z) noexcept -> void
     {
